@@ -121,6 +121,34 @@ PROPS = {
         real_vs_stub=L_REAL,
         assumptions=SIM_ASSUME + ["backend Save/Remove are atomic at a crash"],
     ),
+    "C14": dict(
+        pkg="cmd/restic", test="TestVerifC14", level="exploration", quick_s=60, thorough_s=900,
+        text="one or two concurrent backups (real runBackup) and one to three concurrent reader processes running the real ls, find, dump, restore, "
+             "diff and check --no-lock commands over one repository, interleaved by the seeded scheduler at backend-operation (in a quarter of the "
+             "runs also mutex) granularity; at the instant every snapshot file is saved the store is decoded independently and all blobs the "
+             "snapshot needs must already be in durable index entries with durable packs; no reader may fail, and the final state passes check",
+        note="listings are read-after-write consistent (atomic snapshots of the store); a quarter of the runs adds transient errors that the retry "
+             "layer absorbs; mount is not run (the kernel FUSE transport is outside the simulator); copy as a source reader is exercised by C32",
+        design_ref="3 / C14",
+        rule="one run = configuration x generated trees x 1-2 writers x 1-3 readers with 1-3 commands each x start offsets x seeded schedule; "
+             "distinct = distinct event-log hash among runs with a real scheduling choice",
+        real_vs_stub=L_REAL + "; restore targets are real directories",
+        assumptions=SIM_ASSUME + ["listings are read-after-write consistent"],
+    ),
+    "C16": dict(
+        pkg="cmd/restic", test="TestVerifC16", level="exploration", quick_s=45, thorough_s=600,
+        text="source trees with 2-24 files drawn from 1-4 distinct contents and up to 4 identical subdirectories, backed up by the real runBackup with "
+             "read concurrency 1-8 and 1-8 virtual cores; in three quarters of the runs every mutex acquisition is a scheduling point, so the order in "
+             "which concurrent savers register a pending blob is decided by the seeded scheduler; the store is decoded independently: after the backup "
+             "every blob occurs exactly once in the uploaded packs and there are no more data blobs than distinct contents; a second backup with the "
+             "parent and a third with --force of the unchanged source add no blob",
+        note="duplicates across chunk boundaries inside large files are input-driven and only sampled by the generator",
+        design_ref="3 / C16",
+        rule="one run = configuration x generated duplicate-heavy tree x read concurrency x seeded schedule; distinct = distinct event-log hash among "
+             "runs with a real scheduling choice",
+        real_vs_stub=L_REAL,
+        assumptions=SIM_ASSUME,
+    ),
     "C15": dict(
         pkg="cmd/restic", test="TestVerifC15", level="exploration", quick_s=60, thorough_s=900,
         text="generated histories of 2-8 operations over backup, forget, prune, forget --prune, tag, rewrite --exclude, key add/passwd and repair "
